@@ -51,10 +51,17 @@ def build():
             && (self.key_type is EcdsaP521 ==> v@.len() == 132), //@C15.ecdsa_signature_fixed_width,C04.ecdsa_fixed_width
         // RS256 is RSASSA-PKCS1-v1_5 over SHA-256
         r matches Ok(v) ==> (*alg is Rs256 ==> rsa_pkcs1_valid(self.inner_key.ident@, 1u8, data@, v@)), //@C15.signature_is_made_with_the_digest_of_the_declared_algorithm,C04.signature_is_made_with_the_digest_of_the_declared_algorithm
+        r matches Ok(v) ==> (*alg is Ed25519 || *alg is Ed448 ==> eddsa_valid(self.inner_key.ident@, data@, v@)), //@C15.signature_is_made_with_the_digest_of_the_declared_algorithm,C04.signature_is_made_with_the_digest_of_the_declared_algorithm
         // an ECDSA signature is made over the digest RFC 7518 gives the declared algorithm (ES256: SHA-256, ES384: SHA-384, ES512: SHA-512),
         // so that it verifies under that algorithm
         r matches Ok(v) ==> (es_hash(*alg) matches Some(h) ==> exists|rr: Seq<u8>, ss: Seq<u8>| crate::openssl::ecdsa::ecdsa_valid(self.inner_key.ident@, hash_spec(h, data@), rr, ss)
             && v@ == crate::openssl::bn::left_pad(rr, ec_size(self.key_type)) + crate::openssl::bn::left_pad(ss, ec_size(self.key_type))), //@C15.signature_is_made_with_the_digest_of_the_declared_algorithm,C04.signature_is_made_with_the_digest_of_the_declared_algorithm
+""")})
+    u.verify(K, "KeyPair::sign_rsa", "crypto", props=["C15", "C04"], fns={"sign_rsa": FnSpec(ret="r", sig="""
+    ensures r matches Ok(v) ==> rsa_pkcs1_valid(self.inner_key.ident@, hash_func.id, data@, v@), //@C15.rsa_signature_is_pkcs1_v1_5_over_the_given_digest,C04.rsa_signature_is_pkcs1_v1_5_over_the_given_digest
+""")})
+    u.verify(K, "KeyPair::sign_eddsa", "crypto", props=["C15", "C04"], fns={"sign_eddsa": FnSpec(ret="r", sig="""
+    ensures r matches Ok(v) ==> eddsa_valid(self.inner_key.ident@, data@, v@), //@C15.eddsa_signature_is_one_shot_over_the_message,C04.eddsa_signature_is_one_shot_over_the_message
 """)})
     u.verify(K, "KeyPair::sign_ecdsa", "crypto", props=["C15", "C04"], fns={"sign_ecdsa": FnSpec(ret="r", sig="""
     requires self.wf(),
@@ -185,7 +192,13 @@ pub open spec fn jwk_members(k: KeyPair, thumbprint: bool) -> Map<Seq<char>, Seq
     }
 }
 // sig is an RSASSA-PKCS1-v1_5 signature of data by the key, over the digest numbered as in MessageDigest (1 = SHA-256)
-pub uninterp spec fn rsa_pkcs1_valid(key: int, digest: u8, data: Seq<u8>, sig: Seq<u8>) -> bool;
+pub open spec fn rsa_pkcs1_valid(key: int, digest: u8, data: Seq<u8>, sig: Seq<u8>) -> bool {
+    crate::openssl::sign::sig_made(key, crate::openssl::rsa::Padding::PKCS1.id, Some(digest), data, sig)
+}
+// sig is the pure EdDSA (one-shot, no pre-hash) signature of data by the key
+pub open spec fn eddsa_valid(key: int, data: Seq<u8>, sig: Seq<u8>) -> bool {
+    crate::openssl::sign::sig_made(key, crate::openssl::rsa::Padding::PKCS1.id, None, data, sig)
+}
 pub proof fn lemma_maps() {}
 impl vstd::std_specs::cmp::PartialEqSpecImpl for JwsSignatureAlgorithm {
     open spec fn obeys_eq_spec() -> bool { true }
@@ -201,11 +214,6 @@ impl BaseHashFunction {
 impl std::fmt::Display for KeyType { #[verifier::external_body] fn fmt(&self, f: &mut std::fmt::Formatter) -> std::fmt::Result { unimplemented!() } }
 impl std::fmt::Display for JwsSignatureAlgorithm { #[verifier::external_body] fn fmt(&self, f: &mut std::fmt::Formatter) -> std::fmt::Result { unimplemented!() } }
 impl KeyPair {
-    #[verifier::external_body]
-    fn sign_rsa(&self, hash_func: &MessageDigest, data: &[u8]) -> (r: Result<Vec<u8>, Error>)
-        ensures r matches Ok(v) ==> rsa_pkcs1_valid(self.inner_key.ident@, hash_func.id, data@, v@) { unimplemented!() }
-    #[verifier::external_body]
-    fn sign_eddsa(&self, data: &[u8]) -> Result<Vec<u8>, Error> { unimplemented!() }
     // X: the Ed25519/Ed448 `x` is cut out of a PEM string by offset - outside what a contract on this code can state
     #[verifier::external_body]
     fn get_eddsa_jwk(&self, thumbprint: bool) -> (r: Result<Value, Error>)
